@@ -86,7 +86,7 @@ func init() {
 		ID: "C01",
 		Rule: "CNF formulas from seeded generators (messy tiny/small formulas with empty, unit, duplicate-literal, tautological and repeated clauses and unused declared variables; uniform 2/3-SAT near threshold with 5..70 variables; pigeonhole; parity chains), each through one front-end (ParseSlice / ParseSliceNb / ParseCNF with free DIMACS layout) and one configuration (certificate on/off x learned-clause limit default/4/16). A case is non-trivial when parsing left the status undetermined so that the CDCL search ran; distinct = distinct (formula, front-end, configuration).",
 		Gens:    cnfGens(),
-		Run:     func(o *Oracle, d json.RawMessage) Outcome { return runCnfCase(o, d, "C01") },
+		Run:     func(o *Oracle, d json.RawMessage, oc *Outcome) { runCnfCase(o, d, oc, "C01") },
 		Cases:   defCases(2500, 40000),
 		Timeout: defDur(20*time.Second, 60*time.Second),
 		Wall:    defDur(50*time.Second, 12*time.Minute),
@@ -182,12 +182,11 @@ func solveCnf(c *CnfCase, certified bool, nbMax int) solveRun {
 	return res
 }
 
-func runCnfCase(o *Oracle, d json.RawMessage, prop string) Outcome {
+func runCnfCase(o *Oracle, d json.RawMessage, oc *Outcome, prop string) {
 	var c CnfCase
-	var oc Outcome
 	if err := json.Unmarshal(d, &c); err != nil {
 		oc.Fail("crash", "harness", "", "bad case: %v", err)
-		return oc
+		return
 	}
 	oc.Key = keyOf(c)
 	oc.Sample = fmt.Sprintf("front=%s n=%d cert=%v nbmax=%d cnf=%s", c.Front, c.NbVars, c.Certified, c.NbMax, cnfString(c.Clauses))
@@ -196,7 +195,7 @@ func runCnfCase(o *Oracle, d json.RawMessage, prop string) Outcome {
 	run := solveCnf(&c, c.Certified, c.NbMax)
 	if run.err != nil {
 		oc.Fail("spec", "parse-ok", "solver.ParseCNF", "well-formed DIMACS rejected: %v", run.err)
-		return oc
+		return
 	}
 	n := c.NbVars
 	lins := cnfLins(c.Clauses)
@@ -283,5 +282,4 @@ func runCnfCase(o *Oracle, d json.RawMessage, prop string) Outcome {
 			}
 		}
 	}
-	return oc
 }
